@@ -261,7 +261,10 @@ class Parser:
                 e = ("call", e[1], self.args())
             elif self.peek() == "." and self.kind() == "p":
                 self.next()
-                if self.kind() == "num": self.fail("tuple field access")
+                if self.kind() == "num":
+                    k, suf = parse_int(self.next())
+                    if suf is not None: self.fail("tuple field access")
+                    e = ("tfield", e, k); continue
                 nm = self.ident()
                 if self.peek() == "(" : e = ("mcall", e, nm, self.args())
                 elif self.peek() == "::": self.fail("turbofish")
@@ -636,6 +639,10 @@ def assigned(x, acc=None, declared=None):
         elif x[0] == "ref" and x[1]:
             r = lvalue_root(x[2])
             if r: acc.add(r)
+        elif x[0] == "mcall" and x[2] == "resize":
+            r = lvalue_root(x[1])
+            if r: acc.add(r)
+            assigned(x[3], acc, declared)
         elif x[0] == "mcall" and x[2] == "copy_from_slice":
             r = lvalue_root(x[1])
             if r: acc.add(r)
@@ -866,6 +873,7 @@ class FnLower:
         if k == "mcall":
             r, a = c(e[1]), call_args(e[3]); return None if r is None or a is None else f"{r}.{e[2]}{a}"
         if k == "field": r = c(e[1]); return None if r is None else f"{r}.{e[2]}"
+        if k == "tfield": r = c(e[1]); return None if r is None else f"{r}.{e[2]}"
         if k == "call": a = call_args(e[2]); return None if a is None else "::".join(e[1]) + a
         if k == "cast":
             r = c(e[1]); return None if r is None or e[2][0] != "name" else f"{r} as {e[2][1]}"
@@ -977,6 +985,14 @@ class FnLower:
             a, b = self.lookup(env, e[1][1][0]), self.lookup(env, e[2][1][0])
             if a.kind != "list" or b.kind != "list": self.fail("zip of something that is not a slice")
             return ("v", Val(f"(min {a.lean}.length {b.lean}.length)", "usize", [a.lean, b.lean]))
+        if k == "tfield":
+            b = strip_paren(e[1])
+            if b[0] == "path" and len(b[1]) == 1 and self.lookup(env, b[1][0]).kind == "tup":
+                v = env[b[1][0]]; tys = v.ty[1]
+                if e[2] >= len(tys): self.fail(f"tuple field .{e[2]} of a {len(tys)}-tuple")
+                proj = ".2" * e[2] + (".1" if e[2] < len(tys) - 1 else "")
+                return ("v", Val(f"{v.lean}{proj}", tys[e[2]], [v.lean]))
+            self.fail("tuple field access on something that is not a local bound to a tuple result")
         if k == "float": self.fail(f"float literal {e[1]} outside an abstracted expression")
         if k == "structlit": return self.struct_lit(e, env, ops)
         if k == "match": return self.match_value(e, env, ops)
@@ -1164,6 +1180,11 @@ class FnLower:
             return self.call_sig(sig, f"{sname}::{m}", [recv] + list(args), env, ops)
         if recv[0] == "path" and len(recv[1]) == 1 and recv[1][0] in env and env[recv[1][0]].kind == "list" and getattr(env[recv[1][0]], "vec", False):
             v = env[recv[1][0]]
+            if m == "resize" and len(args) == 2 and v.mut:
+                nn, fill = self.seq([lambda: self.ex(args[0], env, ops), lambda: self.ex(args[1], env, ops)], ops)
+                if nn.ty not in WORD or fill.ty not in WORD: self.fail("Vec::resize arguments")
+                ops.append(("let", v.lean, f"resizeL {v.lean} {nn.atom} {fill.atom}"))
+                return ("v", Val("()", "unit"))
             if m == "push" and len(args) == 1:
                 a = self.ex(args[0], env, ops)
                 if a.ty not in WORD: self.fail(f"push of a {a.ty}")
@@ -1172,6 +1193,13 @@ class FnLower:
             if m == "reserve" and len(args) == 1:
                 self.ex(args[0], env, ops)                 # capacity hint: only the (checked) evaluation of the argument is observable
                 return ("v", Val("()", "unit"))
+        if m == "to_vec" and not args and recv[0] == "path" and len(recv[1]) == 1 and recv[1][0] in env and env[recv[1][0]].kind == "list":
+            return ("v", Val(env[recv[1][0]].lean, "list", [env[recv[1][0]].lean]))      # a copy: the same value
+        if m in ("max", "min") and len(args) == 1:
+            a, b = self.seq([lambda: self.ex(recv, env, ops), lambda: self.ex(args[0], env, ops)], ops)
+            if a.ty in ("u64", "usize") and b.ty in ("u64", "usize", "int"):
+                return ("v", Val(f"({m} {a.atom} {b.atom})", a.ty, a.deps | b.deps))
+            self.fail(f"{m} on {a.ty}, {b.ty}")
         if m == "contains" and len(args) == 1 and recv[0] == "range":
             x = strip_paren(args[0])
             if x[0] == "ref" and not x[1]: x = x[2]
@@ -1409,7 +1437,7 @@ class FnLower:
         exn = self.extern_of(e, env)
         if exn is not None: return self.extern_call(exn, env, ops)
         sig = None
-        if len(path) >= 2 and (path[-2] == "Self" or path[-2] in self.tr.structs):
+        if len(path) >= 2 and (path[-2] == "Self" or path[-2] in self.tr.structs or (path[-2], fname) in self.tr.msigs):
             sig = self.tr.msigs.get((self.fn["selfty"] if path[-2] == "Self" else path[-2], fname))
         if sig is None and not (len(path) >= 2 and path[-2][0].isupper()): sig = self.tr.sigs.get(fname)
         if sig is None: self.fail(f"call to `{'::'.join(path)}` which is not a translated function")
@@ -1785,7 +1813,7 @@ class FnLower2(FnLower):
             env[pat] = Var("arr", vals, "u64", rust=pat); return
         if i0[0] == "mcall" and i0[2] == "const_ratio" and not i0[3]:
             env[pat] = Var("cr", self.modvar(i0[1], env), rust=pat); return
-        if i0[0] == "path" and len(i0[1]) == 1 and i0[1][0] in env and env[i0[1][0]].kind in ("mod", "mulop", "cr", "list"):
+        if i0[0] == "path" and len(i0[1]) == 1 and i0[1][0] in env and env[i0[1][0]].kind in ("mod", "mulop", "cr", "list", "modlist", "moplist"):
             env[pat] = env[i0[1][0]]; return
         n = self.newvar(pat)
         # evaluate first (the initialiser may mention the variable being shadowed)
@@ -1805,6 +1833,8 @@ class FnLower2(FnLower):
         elif isinstance(t, tuple) and t[0] == "struct": env[pat] = Var("struct", n, t[1], rust=pat)
         elif isinstance(t, tuple) and t[0] == "enum": env[pat] = Var("val", n, t, rust=pat)
         elif t == "list": env[pat] = Var("list", n, rust=pat); env[pat].vec = True; env[pat].mut = bool(mut)
+        elif is_tup(t) and not mut and all(x in WORD for x in t[1]) and ops1 and ops1[-1][0] == "let":
+            ops1[-1] = ("let", n, "(" + ops1[-1][2] + ")"); env[pat] = Var("tup", n, t, rust=pat)     # `let r = f(..)` with a tuple result: only `r.k` is accepted
         else: self.fail(f"`let` of a value of type {t}", ln)
         ops.extend(ops1)
 
@@ -1898,7 +1928,7 @@ class FnLower2(FnLower):
         for y in a:
             if isinstance(y, str):
                 if y in env and y not in d: res.add(y)
-            elif y[1] in env and env[y[1]].kind in ("out", "outarr") and y[1] not in d: res.add(y[1])
+            elif y[1] in env and (env[y[1]].kind in ("out", "outarr") or (env[y[1]].kind == "list" and env[y[1]].mut)) and y[1] not in d: res.add(y[1])
         return res
 
     def if_stmt(self, e, stmts, i, tail, env, ops, k, nested):
@@ -2378,6 +2408,10 @@ class FnTranslate(FnLower2):
                 self.binders += [f"({n} : Nat)" for n in names]
             elif pt[0] == "ref" and pt[1] and pt[2] == ("name", "u64"):
                 params.append(["out", None]); env[pn] = Var("out", lean, "u64", init=False, rust=pn)
+            elif pt[0] == "ref" and pt[1] and pt[2] == ("vec", ("name", "u64")):
+                # `&mut Vec<u64>`: like `&mut [u64]` (input and first result), but its length may change (`resize`)
+                params.append(("mlist",)); env[pn] = Var("list", lean, rust=pn); env[pn].mut = True; env[pn].vec = True
+                self.binders.append(f"({lean} : List Nat)")
             elif pt[0] == "ref" and pt[1] and pt[2][0] == "arr" and pt[2][1] == ("name", "u64"):
                 w = const_index_width(body, pn)
                 if w is None:
@@ -2531,7 +2565,8 @@ class FnTranslate(FnLower2):
         force = self.opts.get("monadic", False)
         # registered before lowering so that recursive calls resolve (monadic flag fixed by the table for recursive functions)
         sig = {"lean": self.name, "params": self.params, "ret": self.ret, "monadic": force, "ret_lean": self.ret_lean, "ns": self.tr.cur_ns}
-        if self.fn.get("selfty"): self.tr.msigs[(self.fn["selfty"], self.fn["name"])] = sig
+        if self.opts.get("register_as"): self.tr.sigs[self.opts["register_as"]] = sig      # (skeleton variants of one method: callable under this name)
+        elif self.fn.get("selfty"): self.tr.msigs[(self.fn["selfty"], self.fn["name"])] = sig
         else: self.tr.sigs[self.fn["name"]] = sig
         def kfun(env2, val, ops):
             parts = []
@@ -3090,12 +3125,67 @@ POLY_KERNELS = ["modulo", "negate", "negate_inplace", "add", "add_inplace", "sub
                 "sub_scalar", "sub_scalar_inplace", "multiply_scalar", "multiply_scalar_inplace", "multiply_operand", "multiply_operand_inplace",
                 "dyadic_product", "dyadic_product_inplace", "negacyclic_shift", "negacyclic_multiply_mononomial",
                 "negacyclic_multiply_mononomial_inplace"]
-POLY_WRAPPED = ["modulo", "negate", "negate_inplace", "add", "add_inplace", "sub", "sub_inplace", "multiply_scalar", "multiply_scalar_inplace",
-                "multiply_operand", "multiply_operand_inplace", "dyadic_product", "dyadic_product_inplace", "negacyclic_shift",
-                "negacyclic_multiply_mononomial", "negacyclic_multiply_mononomial_inplace"]
+# wrappers: only those the library calls (src/evaluator.rs, src/encryptor.rs, ...); a generated function without a theorem only adds fragility
+POLY_WRAPPERS = ["negate_inplace_p", "negate_inplace_ps", "add_inplace_p", "add_inplace_ps", "sub_inplace_p", "sub_inplace_ps",
+                 "multiply_scalar_p", "multiply_scalar_inplace_p", "multiply_scalar_inplace_ps", "dyadic_product_p", "dyadic_product_inplace_p",
+                 "negacyclic_shift_p", "negacyclic_shift_ps", "negacyclic_multiply_mononomial_inplace_p", "negacyclic_multiply_mononomial_inplace_ps"]
 TABLE_POLY = [{"file": "src/modulus.rs", "fn": "reduce", "impl": "Modulus", "lean": "mod_reduce", "model": "barrett64"},
               {"file": UB, "fn": "set_uint", "model": "(copy of a prefix)"}] + \
-             [_pk(k) for k in POLY_KERNELS] + [_pk(k + suf) for k in POLY_WRAPPED for suf in ("_p", "_ps")]
+             [_pk(k) for k in POLY_KERNELS] + [_pk(k) for k in POLY_WRAPPERS]
+
+# Gen/EvalCtFns.lean (phase 4d): ciphertext-level evaluator primitives (src/evaluator.rs) over the FLAT ciphertext buffers.  Skeleton
+# mode: the ciphertext / context objects are opaque; their data vectors, sizes, correction factors are pseudo-variables, the checks
+# (`check_ciphertext`, `match_parms_id`, `match_scale`, NTT-form comparison) are Boolean inputs.  TRUSTED reading of the accessors:
+# `data()` / `data_mut()` = the flat buffer, `polys_mut(a, b)` = `&mut data[a*d..b*d]` with d = degree * moduli.len() (src/text.rs),
+# `resize(.., size)` = the size check of `resize_internal` + `data.resize(size*d, 0)` + `size = size`.
+CTX1 = "self.get_context_data(ciphertext1.parms_id())"
+PLEN = "(n * moduli.len())"
+SK_TRANSLATE = {
+    "sig": "fn translate_inplace(d1: &mut Vec<u64>, size1_in: usize, cf1_in: u64, d2: &[u64], size2: usize, cf2: u64, is_subtract: bool, "
+           "valid1: bool, valid2: bool, same_parms: bool, ntt_differ: bool, same_scale: bool, moduli: &[Modulus], t: &Modulus, n: usize) -> (usize, u64)",
+    "prologue": "let mut size1 = size1_in; let mut cf1 = cf1_in;", "epilogue": "(size1, cf1)",
+    "handles": [CTX1, CTX1 + ".parms()"],
+    "exprs": {"ciphertext1.is_ntt_form() != ciphertext2.is_ntt_form()": "ntt_differ",
+              CTX1 + ".parms().coeff_modulus()": "moduli", CTX1 + ".parms().plain_modulus()": "t", CTX1 + ".parms().poly_modulus_degree()": "n",
+              "ciphertext1.size()": "size1", "ciphertext2.size()": "size2",
+              "ciphertext1.correction_factor() != ciphertext2.correction_factor()": "cf1 != cf2",
+              "Self::balance_correction_factors(ciphertext1.correction_factor(), ciphertext2.correction_factor(), plain_modulus)":
+                  "Evaluator::balance_correction_factors(cf1, cf2, plain_modulus)",
+              "ciphertext1.data_mut()": "d1", "ciphertext2.data()": "d2", "ciphertext2.clone()": "d2.to_vec()",
+              "ciphertext2_copy.data_mut()": "ciphertext2_copy",
+              "ciphertext1.polys_mut(ciphertext1_size, ciphertext2_size)": "&mut d1[ciphertext1_size * %s..ciphertext2_size * %s]" % (PLEN, PLEN)},
+    "effects": {"self.check_ciphertext(ciphertext1)": "assert!(valid1);", "self.check_ciphertext(ciphertext2)": "assert!(valid2);",
+                "self.match_parms_id(ciphertext1, ciphertext2)": "assert!(same_parms);",
+                "self.match_scale(ciphertext1, ciphertext2)": "assert!(same_scale);",
+                "ciphertext1.resize(&self.context, " + CTX1 + ".parms_id(), max_count)":
+                    "assert!(!((max_count < HE_CIPHERTEXT_SIZE_MIN && max_count != 0) || max_count > HE_CIPHERTEXT_SIZE_MAX)); "
+                    "d1.resize(max_count * n * moduli.len(), 0); size1 = max_count;",
+                "ciphertext1.set_correction_factor(factors.0)": "cf1 = factors.0;",
+                "ciphertext2_copy.set_correction_factor(factors.0)": "",
+                "ciphertext1.polys_mut(ciphertext1_size, ciphertext2_size).copy_from_slice(ciphertext2.polys(ciphertext1_size, ciphertext2_size))":
+                    "d1[ciphertext1_size * %s..ciphertext2_size * %s].copy_from_slice(&d2[ciphertext1_size * %s..ciphertext2_size * %s]);" % (PLEN, PLEN, PLEN, PLEN)}}
+REC = "self.translate_inplace(ciphertext1, &ciphertext2_copy, is_subtract)"
+SK_TRANSLATE_EQ = dict(SK_TRANSLATE, effects=dict(SK_TRANSLATE["effects"], **{REC: "panic!();"}))      # recursion depth 2: cut off (unreachable: the factors are equal there)
+SK_TRANSLATE_TOP = dict(SK_TRANSLATE, effects=dict(SK_TRANSLATE["effects"], **{REC:
+    "let r = translate_inplace_eq(d1, size1, cf1, &ciphertext2_copy, size2, cf1, is_subtract, valid1, valid2, same_parms, ntt_differ, same_scale, moduli, t, n); "
+    "size1 = r.0; cf1 = r.1;"}))
+CTXN = "self.get_context_data(ciphertext.parms_id())"
+SK_NEGATE = {"sig": "fn negate_inplace(d: &mut Vec<u64>, size: usize, valid: bool, moduli: &[Modulus], n: usize)",
+             "handles": [CTXN, CTXN + ".parms()"],
+             "exprs": {CTXN + ".parms().coeff_modulus()": "moduli", CTXN + ".parms().poly_modulus_degree()": "n", "ciphertext.size()": "size",
+                       "ciphertext.data_mut()": "d"},
+             "effects": {"self.check_ciphertext(ciphertext)": "assert!(valid);"}}
+CSZ = {"HE_CIPHERTEXT_SIZE_MIN": UB, "HE_CIPHERTEXT_SIZE_MAX": UB}
+TABLE_EVALCT = [
+    {"file": EV, "fn": "negate_inplace", "impl": "Evaluator", "lean": "ct_negate_inplace", "model": "ctNegate", "skeleton": SK_NEGATE},
+    {"file": EV, "fn": "translate_inplace", "impl": "Evaluator", "lean": "ct_translate_inplace_eq", "register_as": "translate_inplace_eq",
+     "model": "ctTranslate", "skeleton": SK_TRANSLATE_EQ, "consts": CSZ},
+    {"file": EV, "fn": "translate_inplace", "impl": "Evaluator", "lean": "ct_translate_inplace", "register_as": "translate_inplace_top",
+     "model": "ctTranslateBalanced", "skeleton": SK_TRANSLATE_TOP, "consts": CSZ},
+]
+EVALCT_PRELUDE = """/-- `Vec::resize(n, fill)` -/
+def resizeL (l : List Nat) (n fill : Nat) : List Nat := l.take n ++ List.replicate (n - l.length) fill
+"""
 
 FILES += [
     ("WordFns.lean", {"ns": "GenW", "imports": ["Heathcliff.Model.Word"], "table": TABLE, "prelude": PRELUDE}),
@@ -3111,6 +3201,8 @@ FILES += [
                         }}),
     ("EvalFns.lean", {"ns": "GenE", "imports": ["Heathcliff.Gen.WordFns"], "table": TABLE_EVAL, "opens": ["HC.GenW"]}),
     ("PolyFns.lean", {"ns": "GenP", "imports": ["Heathcliff.Gen.WordFns"], "table": TABLE_POLY, "opens": ["HC.GenW"], "prelude": POLY_PRELUDE}),
+    ("EvalCtFns.lean", {"ns": "GenC", "imports": ["Heathcliff.Gen.PolyFns", "Heathcliff.Gen.EvalFns"], "table": TABLE_EVALCT,
+                        "opens": ["HC.GenW", "HC.GenP"], "prelude": EVALCT_PRELUDE}),
     ("ScalingFns.lean", {"ns": "GenS", "imports": ["Heathcliff.Gen.WordFns"], "table": TABLE_SCALING, "opens": ["HC.GenW"], "prelude": SCALING_PRELUDE}),
     ("RnsFns.lean", {"ns": "GenR", "imports": ["Heathcliff.Gen.WordFns"], "table": TABLE_RNS, "opens": ["HC.GenW"], "prelude": PRELUDE_RNS}),
 ]
